@@ -332,7 +332,7 @@ def worker(ctx):
 def run(env):
     quick = env.tier == "quick"
     stats = core.run_workers(__name__, "worker", PROP, env.tier, env.seed, env.driver, env.hooks_on,
-                             45 if quick else 400, {"units_per_worker": 1500 if quick else 25000, "valid_per_worker": 100 if quick else 1000})
+                             45 if quick else 400, {"units_per_worker": 5000 if quick else 25000, "valid_per_worker": 300 if quick else 1000})
     return core.finish(PROP, env.tier, env.seed, LEVEL, stats, env.t0, RULE, min_conclusive=2000 if quick else 20000,
                        assumptions=["each corruption is invalid by the documented grammar (function table pinned in vf/function_table.json)",
                                     "rejection by the clap front end counts as rejected before anything was read or written",
